@@ -445,3 +445,76 @@ func C13_PosName() {
 		nd.Assert(isPE, "a positional parameter cannot be assigned with :=")
 	}
 }
+
+// C13_WordAt: the word of ${p:-w} ${p-w} ${p:+w} ${p+w} may itself expand to
+// several fields ("$@" inside it): when the word is used, each positional
+// parameter is a field of its own, whatever IFS is (unset, null, blank, ':'),
+// joined to the text before and after the expansion.
+func C13_WordAt() {
+	ops := []string{":-", "-", ":+", "+"}
+	op := ops[nd.Choice(4)]
+	params := [][]string{{}, {"p"}, {"p", "q r"}, {"a:b", "", "c"}}[nd.Choice(4)]
+	last := nd.Str(1)
+	env := interp.NewExecEnv("sh", params...)
+	if len(params) > 0 {
+		env.Args[len(env.Args)-1] += last
+		params = append([]string{}, env.Args[1:]...)
+	}
+	env.Opts = interp.NoGlob
+	ifsKind := nd.Choice(4)
+	switch ifsKind {
+	case 0:
+		env.Unset("IFS")
+	case 1:
+		env.Set("IFS", "")
+	case 2:
+		env.Set("IFS", " ")
+	case 3:
+		env.Set("IFS", ":")
+	}
+	env.Set("s", "v")
+	name := "s" // set and not null: + forms use the word
+	if op[len(op)-1] == '-' {
+		name = "u" // unset: - forms use the word
+	}
+	word := ast.Word{&ast.Quote{Tok: `"`, Value: ast.Word{&ast.ParamExp{Name: &ast.Lit{Value: "@"}}}}}
+	pre, post := nd.Choice(2) == 1, nd.Choice(2) == 1
+	top := ast.Word{}
+	if pre {
+		top = append(top, &ast.Lit{Value: "x"})
+	}
+	top = append(top, mkParam(name, op, word))
+	if post {
+		top = append(top, &ast.Lit{Value: "y"})
+	}
+	got, err := env.Expand(top, 0)
+	nd.Observe(op + " #" + itoa(len(params)) + " ifs" + itoa(ifsKind))
+	nd.Assert(err == nil, "expansion succeeds")
+	if err != nil {
+		return
+	}
+	var want []string
+	cur := ""
+	if pre {
+		cur = "x"
+	}
+	for j, p := range params {
+		if j > 0 {
+			want = append(want, cur)
+			cur = ""
+		}
+		cur += p
+	}
+	if post {
+		cur += "y"
+	}
+	if len(params) > 0 || pre || post {
+		want = append(want, cur)
+	}
+	nd.Assert(len(got) == len(want), "\"$@\" inside the word of a parameter expansion yields one field per positional parameter")
+	if len(got) == len(want) {
+		for k := range got {
+			nd.Assert(got[k] == want[k], "fields of \"$@\" inside the word of a parameter expansion")
+		}
+	}
+}
